@@ -43,6 +43,8 @@ OBLIGATIONS += [
     fn("bits", "F_BITS", ["FuncBITCNT", "FuncFIRSTBIT", "FuncLASTBIT"], "all 2^64 integers"),
     fn("intmisc", "F_INTMISC", ["FuncSGN", "FuncABS", "FuncTOUPPER"], "all 2^64 integers"),
     fn("str", "F_STR", ["FuncSTRLEN", "FuncCHARFROMSTR", "FuncSUBSTR"], "strings of 0..4 arbitrary characters, any 64-bit position, count -8..8"),
+    fn("str2", "F_STR2", ["FuncSTRSTR", "FuncUPSTRING", "FuncLOWSTRING"], "haystack and needle of 0..4 arbitrary characters each"),
+    fn("intmisc2", "F_INTMISC2", ["FuncTOLOWER", "FuncEXPRTYPE"], "all 2^64 integers; the three value types"),
     fn("domain", "F_DOMAIN", ["FuncSQRT", "FuncASIN", "FuncACOS", "FuncLN", "FuncLOG", "FuncLD", "FuncACOSH", "FuncSGN"], "all non-NaN doubles (domain guards only; libm results arbitrary)",
        allow_nobody=["sqrt", "asin", "acos", "log", "log10", "acosh", "fabs", "floor"]),
 ]
